@@ -102,7 +102,7 @@ PROPS = {
     "C13": [("Sketch.v", r"^C13_"), ("Refine.v", r"too_high|too_low|no_panic|Rf_sk_add"), ("Bridge.v", r"Bridge_with_")],
     "C14": [("C04pag.v", r"reads_pure|foreach|compact|key_at_rank"), ("C04pagloops.v", r"."), ("C04dense.v", r"foreach|key_at_rank|total|min_index|max_index"),
             ("C20.v", r"queries_transparent|inv_lower|inv_upper"), ("Refine.v", r"reads_pure|quantile_pure|copy")],
-    "C15": [("C04dense.v", r"inv_clear|clear_like_new"), ("C04pag.v", r"clear"), ("C05.v", r"clear"), ("C04sparse.v", r"clear"), ("Refine.v", r"clear")],
+    "C15": [("C04dense.v", r"inv_clear|clear_like_new"), ("C04pag.v", r"clear"), ("C05.v", r"clear"), ("C04sparse.v", r"clear"), ("Refine.v", r"clear"), ("C15enc.v", r"^C15_")],
     "C16": [("Sketch.v", r"^C16_"), ("C04dense.v", r"reweight"), ("C04pag.v", r"reweight"), ("LayerA.v", r"^A5_|bscale"), ("C05.v", r"reweight"), ("Refine.v", r"reweight"), ("C10.v", r"^reweight_"), ("Misc.v", r"^C16_f_|^GRID_")],
     "C17": [("ChangeMapping.v", r"."), ("ChangeMappingF.v", r"."), ("ChangeMappingQ.v", r"."), ("ChangeMappingW.v", r"."), ("C10.v", r"^rescale_"), ("Misc.v", r"^C17_f_")],
     "C18": [("C18.v", r"."), ("C18grid.v", r".")],
